@@ -67,6 +67,10 @@ def run(ctx):
                   "no emitted branch skips the ldmxcsr%s" % (" (one skip, taken only when FTZ and DAZ are both set already)" if skipping else ""),
                   "%s: %s" % (fn, verdict), line=ld[0].line)
     avx_dest_defined_before_read(db, rep, "D9-AVX-DEST-DEFINED")
+    # D10: double constants reach the code through the bytecode of every orcc-generated function: the integer codecs must widen each
+    # byte before shifting it into place, or 0.1L comes back as a NaN (rule shared with C13 D4)
+    import importlib as _il18
+    _il18.import_module("rules.c13").d4_codec(db, rep, "D10-CONST-CODEC")
     # ---- D2 ------------------------------------------------------------------
     rows = {r["name"]: r for r in init_rows(db.tu("orcopcodes-sys").global_("opcodes")) if isinstance(r, dict) and r.get("name")}
     FLOAT = db.macro_int("ORC_STATIC_OPCODE_FLOAT_SRC") | db.macro_int("ORC_STATIC_OPCODE_FLOAT_DEST")
